@@ -36,7 +36,7 @@ func genNextRet(tier string, seed int64, only string) []*Case {
 		reps = 10
 	}
 	for r := 0; r < reps; r++ {
-		for _, scen := range []string{"unicast", "groupby", "window", "publish", "behavior", "replay", "flatmap"} {
+		for _, scen := range []string{"unicast", "groupby", "window", "publish", "behavior", "replay", "flatmap", "serialize", "merge"} {
 			if only != "" && only != scen {
 				continue
 			}
@@ -167,6 +167,28 @@ func runNextRet(c *Case) string {
 		}
 		send = func(v int) { dest.NextWithContext(ctx, v) }
 		subscribeLate = func() { win.Subscribe(obs) }
+	case "serialize", "merge":
+		// two producer goroutines on one locking stage (Serialize(); the merged subscriber of Merge): the consumer is blocked
+		// inside the delivery of the FIRST producer's value; the second producer's Next returns only after its own value has
+		// been delivered (it waits for the stage's lock) - it is not parked in a hidden queue for the other goroutine to drain
+		p1, p2 := &Probe{script: nil}, &Probe{script: nil}
+		if c.get("scen", "") == "serialize" {
+			ro.Serialize[int]()(p1.Observable()).Subscribe(obs)
+			p2 = p1
+		} else {
+			ro.Merge(p1.Observable(), p2.Observable()).Subscribe(obs)
+		}
+		p1.mu.Lock()
+		d1, c1 := p1.dest, p1.subCtx
+		p1.mu.Unlock()
+		p2.mu.Lock()
+		d2, c2 := p2.dest, p2.subCtx
+		p2.mu.Unlock()
+		if d1 == nil || d2 == nil {
+			return "res " + c.id + " _flag=no-source-subscription"
+		}
+		send = func(v int) { d2.NextWithContext(c2, v) }
+		subscribeLate = func() { d1.NextWithContext(c1, 1) }
 	case "publish", "behavior", "replay":
 		// the multicast subjects: the consumer is blocked inside the delivery of a value that ANOTHER producer is sending;
 		// a second producer's Next returns only after its own value has been delivered (it waits for the subject)
